@@ -199,7 +199,7 @@ Section Steps.
     destruct (lst a) as [|h' r] eqn:El; cbn in Hch; [congruence|].
     destruct Hch as (E & _ & Hch). rewrite Hh in E. subst h'.
     assert (Hon : st a h = OnList) by (apply (S_lin Hi); rewrite El; left; reflexivity).
-    inversion Hnd as [|? ? Hnin Hnd']; subst.
+    apply NoDup_cons_iff in Hnd. destruct Hnd as [Hnin Hnd'].
     pose proof (cnt_step N a h (Taking t) (tl (lst a)) t (GTook h) (hl a t) (own a) h Ht) as Hc. rewrite Hp in Hc.
     unfold has_ref in Hc; cbn in Hc. rewrite Nat.eqb_refl in Hc. cbn in Hc.
     rewrite El in *. cbn [tl] in *.
